@@ -107,7 +107,7 @@ func Base(ep, vr, user, col string) (*Req, error) {
 	case "v2.update:kitchen":
 		r.Body = Obj("points", Arr(Obj("_id", Str(seedID(tag, 0)), "vec", Floats(4, 3, 2, 1), "flat", Floats(3, 2, 1), "txt", Str("lazy dog"),
 			"str", Str("Omega"), "num", Int64(-5), "flt", Flt(2.25), "tags", Strs("u", "common"), "nest", Obj("n", Int64(99)),
-			"extra", Obj("k", Str("_delete")), "newfield", Int(1))))
+			"deep", Obj("a", Obj("b", Int64(7))), "extra", Obj("k", Str("_delete")), "newfield", Int(1))))
 	case "v2.update:grow":
 		r.Body = Obj("points", Arr(Obj("_id", Str(seedID(tag, 0)), "pad", Str(repeat("p", 80)))))
 	case "v2.delpts:kitchen", "v1.delpts:delpts":
